@@ -1160,6 +1160,54 @@ def drv_shared_build(case):
     return [{"op": "shared_build", "first_before": before, "first_after_build": after_build, "first_after": after, "first_fresh": f1,
              "second": s2, "second_fresh": f2}]
 
+def drv_determinism(case):
+    """run in a pristine process: the same constructor calls before and after other, unrelated use of the library (loading
+    configurators from JSON, packing, rule dictionaries, queries) give the same objects -- no module or class level state leaks"""
+    import puan, puan.logic.plog as pg, puan.modules.configurator as cc
+    from . import solvers
+    def battery():
+        tok = proj.Tok()
+        out = []
+        for r in case["probes"]:
+            doc = B.to_json_recipe(r)
+            for ctor in (pg.from_json, lambda d: B.build(r)):
+                try:
+                    o = ctor(doc)
+                    q = {"node": proj.node(o, tok), "errors": sorted(str(getattr(x, "value", x)) for x in o.errors())}
+                    try:
+                        rows, cols = proj.polyhedron(o.to_ge_polyhedron(active=True), tok); q["poly"] = {"rows": rows, "cols": cols}
+                    except BaseException as ex:
+                        q["poly"] = {"raised": type(ex).__name__}
+                    q["neg"] = proj.node(o.negate(), tok)
+                    q["json"] = proj.jdoc(json.loads(json.dumps(o.to_json())), tok)
+                except (KeyboardInterrupt, SystemExit):
+                    raise
+                except BaseException as ex:
+                    q = {"raised": type(ex).__name__}
+                out.append(q)
+        return out
+    first = battery()
+    for r in case["noise"]:
+        try:
+            doc = B.to_json_recipe(r)
+            o = cc.StingyConfigurator.from_json(doc) if r["c"] == "Cfg" else pg.from_json(doc)
+            o2 = B.build(r)
+            o.to_json(); pg.from_b64(o.to_b64()); o.errors(); o.negate(); o.reduce(); o.flatten()
+            if r["c"] == "Cfg":
+                o.ge_polyhedron; o.default_prios; o.leafs()
+                list(o.select({}, solver=solvers.Capture("capture")))
+                list(o2.select({}, solver=solvers.Capture("capture"), only_leafs=True))
+            else:
+                o.to_ge_polyhedron(active=True); o.evaluate({}); o.evaluate_propositions({})
+                d = B.to_cicje(r)
+                if d is not None: pg.Imply.from_cicJE(d)
+        except (KeyboardInterrupt, SystemExit):
+            raise
+        except BaseException:
+            pass
+    later = battery()
+    return [{"op": "determinism", "first": first, "later": later}]
+
 def drv_derive_poke(case):
     """a model and what assume() / negate() / reduce() returned for it are two objects: calls on the one (here: calls that trigger the
     known overwrite D2 on the CALLED object) must leave the other as it was"""
